@@ -291,7 +291,7 @@ func (fi *FuncInfo) expandCases(l Lin, L *Loop, at *ssa.BasicBlock) []linCase {
 		sort.Strings(atoms)
 		for _, a := range atoms {
 			ph, ok := av[a].(*ssa.Phi)
-			if !ok || !L.Blocks[ph.Block()] || isHeader(ph.Block()) {
+			if !ok || (L != nil && !L.Blocks[ph.Block()]) || isHeader(ph.Block()) {
 				continue
 			}
 			co := l.t[a]
@@ -317,6 +317,13 @@ func (fi *FuncInfo) expandCases(l Lin, L *Loop, at *ssa.BasicBlock) []linCase {
 				for _, in := range ph.Block().Instrs {
 					if sib, isPhi := in.(*ssa.Phi); isPhi && sib != ph && isIntType(sib.Type()) {
 						q2 = append(q2, Fact{fi.lin(sib).sub(fi.lin(sib.Edges[k])), EQ})
+					} else if isPhi && sib != ph {
+						// nil-ness of pointer/interface φs travels along the same edge
+						if ls, ok1 := fi.nilLin(sib); ok1 {
+							if le, ok2 := fi.nilLin(sib.Edges[k]); ok2 {
+								q2 = append(q2, Fact{ls.sub(le), EQ})
+							}
+						}
 					}
 				}
 				rec(rest.addk(fi.lin(ph.Edges[k]), co), cs, q2, append(append([]*ssa.BasicBlock{}, preds...), pred), ch2, depth+1)
